@@ -1251,3 +1251,69 @@ def rule_intention_policy(ctx):
     ctx.floor(rule, "printer functions inspected", n, 150)
     ctx.check(len(seen_policy) >= 2, rule, "policy-functions", "the policy functions no longer inspect BreakIntent (%s): the rule has lost its anchor"
               % sorted(x.split("::")[-1] for x in seen_policy))
+
+
+def rule_binder_requirements(ctx):
+    rule = "binder-requirements"
+    facts = ctx.facts
+    ctx.rule(rule, "the printer renders the binder of `do`, `fix` and `param` at the pattern level the grammar reads there: a production "
+                   "with `<binder:PatId>` (plain pattern) is printed with `pattern`, one with `<binder:PatternAnnId>` with "
+                   "`annotated_pattern` (read from parser.lalrpop on every run; a helper that receives the binder is followed one "
+                   "level). Printing `do (x : T) <- m;` through the annotated printer drops the parentheses the plain-pattern "
+                   "position needs: the output no longer parses")
+    text = G.read()
+    body = G.block(text, "Term")
+    if body is None:
+        ctx.anchor_lost(rule, "nonterminal Term not found in parser.lalrpop")
+        return
+    pv = payload_variant_map(facts, "zydeco_surface::textual::syntax::Term")
+    want = {}
+    for lvl, assoc, sym, act in G.alternatives(body):
+        m = re.search(r"<binder:(\w+)>", sym)
+        if not m:
+            continue
+        v = pv.get(G.constructor_of(sym, act))
+        if v:
+            want[v] = {"PatId": "pattern", "PatternAnnId": "annotated_pattern"}.get(m.group(1), m.group(1))
+    ctx.floor(rule, "term productions with a binder", len(want), 3)
+    fn = FORMATTER + "term_with_requirement"
+    h = ctx.need_hir(rule, fn)
+    if h is None:
+        return
+    loc = facts.bodies()[fn]["loc"]
+    top = next((m for m in H.walk(h["body"]) if H.kind(m) == "Match" and not m.get("src")
+                and any(pv_ in A.pat_shape(a["pat"]) for a in m["arms"] for pv_ in want)), None)
+    if top is None:
+        ctx.anchor_lost(rule, "no match over Term in term_with_requirement")
+        return
+
+    def printers_of(hh, body, env, is_binder):
+        """names of the pattern printers applied to the binder inside `body`, following one helper level"""
+        out = set()
+        for c in H.walk(body):
+            if H.kind(c) not in ("Call", "MethodCall"):
+                continue
+            cal = H.callee(c) or ""
+            args = H.call_args(c)
+            idx = [i for i, a_ in enumerate(args) if is_binder(A.sexpr(a_, env))]
+            if not idx:
+                continue
+            name = cal.split("::")[-1]
+            if cal.startswith(FORMATTER) and name in ("pattern", "annotated_pattern", "pattern_with_requirement"):
+                out.add(name)
+            elif cal.startswith(FORMATTER) and cal in facts.bodies() and hh is not None:
+                h2 = facts.hir(cal)
+                if h2 is not None:
+                    e2 = A.ArmEnv(); e2.strip = True; e2.bind_params(h2); e2.absorb(h2["body"])
+                    out |= printers_of(None, h2["body"], e2, lambda s, i=idx[0]: s == "$P%d" % i)
+        return out
+    for a in top["arms"]:
+        shape = A.pat_shape(a["pat"])
+        v = next((k for k in want if shape.startswith(k + "(") or shape.startswith(k + "{")), None)
+        if v is None:
+            continue
+        env = A.ArmEnv(); env.strip = True; env.bind_params(h); env.bind_pat(A.strip_or(a["pat"])); env.absorb(a["body"])
+        got = printers_of(h, a["body"], env, lambda s: re.search(r"[./]binder\)?$", s) is not None or re.search(r"/Fix\.0\)?$", s) is not None)
+        ctx.check(got == {want[v]}, rule, "term:%s:binder" % v, "the printer renders the binder of `%s` with %s, the grammar reads `%s` there "
+                  "(parser.lalrpop): the printed form does not re-parse, or keeps parentheses the position does not need"
+                  % (v, sorted(got) or "(no pattern printer found)", want[v]), [loc[0], a["ln"]], detail={"former": v, "printer": sorted(got), "grammar": want[v]})
